@@ -343,6 +343,11 @@ Proof.
   unfold to_move. rewrite Hply, Z.even_add. destruct (Z.even (ply p)); reflexivity.
 Qed.
 
+Theorem to_move_alternation cfg p m p' :
+  to_move (from_config cfg) = White /\
+  (Inv cfg p -> move p m = Some p' -> to_move p' = flip (to_move p)).
+Proof. split; [apply to_move_init|apply to_move_alternates]. Qed.
+
 (* ---------- every finite sequence of accepted moves ---------- *)
 Lemma inv_run cfg : forall ms p0 p,
   Inv cfg p0 -> run p0 ms = Some p -> Inv cfg p /\ ply p = ply p0 + Z.of_nat (length ms).
